@@ -5,6 +5,7 @@ import (
 	"fmt"
 	"os"
 
+	"github.com/tetratelabs/wazero/verifharness/calls"
 	"github.com/tetratelabs/wazero/verifharness/cfgreplay"
 	"github.com/tetratelabs/wazero/verifharness/fcache"
 	"github.com/tetratelabs/wazero/verifharness/isoreplay"
@@ -15,23 +16,27 @@ import (
 )
 
 var cmds = map[string]func([]string){
-	"replay-config":     cfgreplay.Main,
-	"concurrent-config": cfgreplay.Concurrent,
-	"replay-registry":   registry.Replay,
-	"trace-registry":    registry.Trace,
-	"gate-registry":     registry.Gate,
-	"replay-memory":     memreplay.Main,
-	"memory-concurrent": memreplay.Concurrent,
-	"replay-memacc":     memacc.Main,
-	"memacc-child":      memacc.Child,
-	"replay-link":       linkreplay.Main,
-	"replay-iso":        isoreplay.Main,
-	"fc-child":          fcache.Child,
-	"fc-replay":         fcache.ReplayProc,
-	"fc-gate":           fcache.ReplayGate,
-	"fc-trunc":          fcache.Trunc,
-	"fc-det":            fcache.Determinism,
-	"fc-points":         fcache.TracePoints,
+	"replay-config":       cfgreplay.Main,
+	"concurrent-config":   cfgreplay.Concurrent,
+	"replay-registry":     registry.Replay,
+	"trace-registry":      registry.Trace,
+	"gate-registry":       registry.Gate,
+	"replay-memory":       memreplay.Main,
+	"memory-concurrent":   memreplay.Concurrent,
+	"replay-memacc":       memacc.Main,
+	"memacc-child":        memacc.Child,
+	"replay-link":         linkreplay.Main,
+	"replay-iso":          isoreplay.Main,
+	"replay-calls":        calls.MainPlain,
+	"calls-child":         calls.ChildPlain,
+	"replay-calls-listen": calls.MainListen,
+	"calls-listen-child":  calls.ChildListen,
+	"fc-child":            fcache.Child,
+	"fc-replay":           fcache.ReplayProc,
+	"fc-gate":             fcache.ReplayGate,
+	"fc-trunc":            fcache.Trunc,
+	"fc-det":              fcache.Determinism,
+	"fc-points":           fcache.TracePoints,
 }
 
 func main() {
